@@ -214,6 +214,50 @@ theorem fusion_where_assoc_counterexample :
   decide
 
 
+/-! ## (a) wire format -/
+
+/-- **C08.wire_partial** — Full statement of (a): the package generated from a Python AST and from its qastle round trip
+are the same.  What the round trip does to a query is `wireNorm` (a tuple display comes back as a list display; nothing
+else changes for queries the text format can express — that the real qastle printer and parser behave like `wprint` /
+`wparse` and that the round trip of every generated query is its `wireNorm` is checked by the harness on every run, not
+proved: qastle is a third-party library).  Proved here: every translator of the shape `eval` whose handlers do not tell
+the tags `tuple` and `list` apart (the real `visit_Tuple` and `visit_List` are the same code) produces the same result,
+state and errors for a query and for its round trip, from every frame stack. -/
+theorem wire_partial {ρ σ} (alg : Alg ρ σ)
+    (h1 : SameTag alg "tuple" "list") (h2 : SameTag alg ("method:" ++ "tuple") ("method:" ++ "list"))
+    (st : Stack ρ) (q : Q) (s : σ) :
+    eval alg st (wireNorm q) s = eval alg st q s :=
+  eval_wire alg h1 h2 q st s
+
+/-- what the text format cannot carry is refused by the printer model (`none`), e.g. an n-ary `and` (qastle re-associates
+it: listed finding) -/
+example : wprint (.node "bool:And" [.var "a", .var "b", .var "c"]) = none ∧
+    wprint (.node "bool:And" [.var "a", .var "b"]) = some ["(", "and", "a", "b", ")"] := by decide
+
+/-- the round trip of a small query through the model printer and parser is its `wireNorm` -/
+example :
+    let q := Q.call "Select" [.var "ds", .lam ["e"] (.node "tuple" [.app (Q.attr (.var "e") "pt") [], .lit "int:1"])]
+    (wprint q).bind (fun t => wparse 100 t) = some (wireNorm q, []) := by decide
+
+/-! ## the conclusion of the property is an equivalence relation -/
+
+theorem sameOutcome_refl (strict : Bool) (o : Outcome) : SameOutcome strict o o := by
+  cases o <;> cases strict <;> simp [SameOutcome, SamePackage, SamePackageUpToDiag]
+
+theorem sameOutcome_symm (strict : Bool) (a b : Outcome) (h : SameOutcome strict a b) : SameOutcome strict b a := by
+  cases a <;> cases b <;> cases strict <;> simp_all [SameOutcome, SamePackage, SamePackageUpToDiag, eq_comm]
+
+theorem sameOutcome_trans (strict : Bool) (a b c : Outcome) (h1 : SameOutcome strict a b) (h2 : SameOutcome strict b c) :
+    SameOutcome strict a c := by
+  cases a <;> cases b <;> cases c <;> cases strict <;> simp_all [SameOutcome, SamePackage, SamePackageUpToDiag]
+
+/-- renumbering: two packages that differ only in the numbers of their generated names are the same for the Spec, and a
+package in which a generated name is used for two different things is not -/
+example : SameOutcome true (.ok [.plain "int", .gen "i_obj3", .plain ";", .gen "i_obj3", .gen "aggResult5"])
+                           (.ok [.plain "int", .gen "i_obj7", .plain ";", .gen "i_obj7", .gen "aggResult9"]) ∧
+        ¬ SameOutcome true (.ok [.gen "i_obj3", .gen "i_obj4"]) (.ok [.gen "i_obj7", .gen "i_obj7"]) := by decide
+
+
 /-! ## (c) position of MetaData calls -/
 
 /-- **C08.md_outermost_first** — `extract_metadata` returns the dictionaries outermost first: a MetaData call wrapped
